@@ -34,6 +34,10 @@ Proof. intros. split; [constructor | discriminate]. Qed.
 Lemma mokP_weaken : forall X (Q1 Q2 : X -> Prop) m, mokP Q1 m -> (forall x, Q1 x -> Q2 x) -> mokP Q2 m.
 Proof. intros X Q1 Q2 m [H1 H2] H. split; auto. Qed.
 
+Lemma mokP_weaken_eq : forall X (Q1 Q2 : X -> Prop) m,
+  mokP Q1 m -> (forall x, snd m = ROk x -> Q1 x -> Q2 x) -> mokP Q2 m.
+Proof. intros X Q1 Q2 m [H1 H2] H. split; auto. Qed.
+
 Lemma mokP_events : forall X (Q : X -> Prop) t (r : res X),
   Forall evP t -> (forall x, r = ROk x -> Q x) -> mokP Q (t, r).
 Proof. intros. split; auto. Qed.
